@@ -26,6 +26,7 @@ type FEdge struct {
 	Cond     ast.Expr // atomic condition, or case expression if Tag != nil / TypeCase
 	Pol      bool     // edge taken when Cond evaluates to Pol
 	Tag      ast.Expr // switch tag for value-switch edges
+	Sw       *ast.SwitchStmt
 	TypeCase bool     // Cond is a type of a type switch on TagAssign
 	TSwitch  *ast.TypeSwitchStmt
 	Clause   *ast.CaseClause // clause entered by this edge (nil for "next case" edges)
@@ -291,9 +292,9 @@ func (b *fbuilder) switchStmt(s *ast.SwitchStmt, label *flabel) {
 				b.add(ce)
 				from := b.block()
 				et := b.edge(from, bodies[i])
-				et.Cond, et.Pol, et.Tag, et.Clause = ce, true, s.Tag, cc
+				et.Cond, et.Pol, et.Tag, et.Clause, et.Sw = ce, true, s.Tag, cc, s
 				ef := b.edge(from, next)
-				ef.Cond, ef.Pol, ef.Tag = ce, false, s.Tag
+				ef.Cond, ef.Pol, ef.Tag, ef.Sw = ce, false, s.Tag, s
 				b.cur = nil
 			}
 			b.cur = next
